@@ -414,26 +414,30 @@ func (g *Gen) appendOp(cc *ssa.CallCommon, name string) string {
 			return app("select", app("select", E, app("s_arr", y)), app("+", app("s_off", y), k))
 		}
 	}
-	newLen := app("+", app("s_len", s), n)
+	newLen := g.fresh("newlen", "Int")
+	g.assume(app("=", newLen, app("+", app("s_len", s), n)))
 	grow := g.fresh("grow", "Bool")
 	g.assume(app("=", grow, app(">", newLen, app("s_cap", s))))
 	id := g.newObject("app_" + name)
 	capF := g.fresh("cap", "Int")
 	g.assume(app(">=", capF, newLen))
-	r := g.fresh("appended", "Slice")
-	g.assume(app("=", r, app("ite", grow, app("mk_slice", id, "0", newLen, capF), app("mk_slice", app("s_arr", s), app("s_off", s), newLen, app("s_cap", s)))))
+	rarr, roff, rcap := g.fresh("apparr_id", "Int"), g.fresh("appoff", "Int"), g.fresh("appcap", "Int")
+	g.assume(app("=", rarr, app("ite", grow, id, app("s_arr", s))))
+	g.assume(app("=", roff, app("ite", grow, "0", app("s_off", s))))
+	g.assume(app("=", rcap, app("ite", grow, capF, app("s_cap", s))))
+	r := app("mk_slice", rarr, roff, newLen, rcap)
 	A := g.fresh("apparr", "(Array Int "+esort+")")
-	roff := app("s_off", r)
-	// old elements
-	g.assume(fmtf("(forall ((k Int)) (! (=> (and (<= 0 k) (< k (s_len %s))) (= (select %s (+ %s k)) (select (select %s (s_arr %s)) (+ (s_off %s) k)))) :pattern ((select %s (+ %s k)))))",
-		s, A, roff, E, s, s, A, roff))
-	// appended elements
-	g.assume(fmtf("(forall ((k Int)) (! (=> (and (<= 0 k) (< k %s)) (= (select %s (+ %s (s_len %s) k)) %s)) :pattern ((select %s (+ %s (s_len %s) k)))))",
-		n, A, roff, s, srcAt("k"), A, roff, s))
-	// in place: everything outside the appended window is unchanged
-	g.assume(implies(not(grow), fmtf("(forall ((k Int)) (! (=> (not (and (<= (+ %s (s_len %s)) k) (< k (+ %s %s)))) (= (select %s k) (select (select %s (s_arr %s)) k))) :pattern ((select %s k))))",
-		roff, s, roff, newLen, A, E, s, A)))
-	g.set(key, app("store", E, app("s_arr", r), A))
+	mid := g.fresh("appmid", "Int")
+	g.assume(app("=", mid, app("+", roff, app("s_len", s))))
+	end := g.fresh("append", "Int")
+	g.assume(app("=", end, app("+", roff, newLen)))
+	// one fact per index j of the result's backing array (pattern: any read of A)
+	oldElem := fmtf("(select (select %s (s_arr %s)) (+ (s_off %s) (- j %s)))", E, s, s, roff)
+	newElem := srcAt(fmtf("(- j %s)", mid))
+	inPlace := fmtf("(select (select %s (s_arr %s)) j)", E, s)
+	g.assume(fmtf("(forall ((j Int)) (! (and (=> (and (<= %s j) (< j %s)) (= (select %s j) %s)) (=> (and (<= %s j) (< j %s)) (= (select %s j) %s)) (=> (and (not %s) (or (< j %s) (>= j %s))) (= (select %s j) %s))) :pattern ((select %s j))))",
+		roff, mid, A, oldElem, mid, end, A, newElem, grow, roff, end, A, inPlace, A))
+	g.set(key, app("store", E, rarr, A))
 	return r
 }
 
@@ -460,9 +464,12 @@ func (g *Gen) copyOp(cc *ssa.CallCommon) string {
 	n := g.fresh("copied", "Int")
 	g.assume(app("=", n, app("ite", app("<=", app("s_len", d), srcLen), app("s_len", d), srcLen)))
 	A := g.fresh("cparr", "(Array Int "+esort+")")
-	doff := app("s_off", d)
-	g.assume(fmtf("(forall ((k Int)) (! (=> (and (<= 0 k) (< k %s)) (= (select %s (+ %s k)) %s)) :pattern ((select %s (+ %s k)))))", n, A, doff, srcAt("k"), A, doff))
-	g.assume(fmtf("(forall ((k Int)) (! (=> (not (and (<= %s k) (< k (+ %s %s)))) (= (select %s k) (select (select %s (s_arr %s)) k))) :pattern ((select %s k))))", doff, doff, n, A, E, d, A))
+	doff := g.fresh("cpoff", "Int")
+	g.assume(app("=", doff, app("s_off", d)))
+	dend := g.fresh("cpend", "Int")
+	g.assume(app("=", dend, app("+", doff, n)))
+	g.assume(fmtf("(forall ((j Int)) (! (and (=> (and (<= %s j) (< j %s)) (= (select %s j) %s)) (=> (or (< j %s) (>= j %s)) (= (select %s j) (select (select %s (s_arr %s)) j)))) :pattern ((select %s j))))",
+		doff, dend, A, srcAt(fmtf("(- j %s)", doff)), doff, dend, A, E, d, A))
 	g.set(key, app("store", E, app("s_arr", d), A))
 	return n
 }
@@ -492,6 +499,16 @@ func (g *Gen) checkPost(res []string, pos token.Pos) {
 			name = fmtf("%s/post#%s@ret%d", g.fnLabel(), cl.Label, rn)
 		}
 		g.oblige("post", name, t, cl.Props, cl.Text, pos)
+	}
+	if g.fc.Fresh && len(res) > 0 {
+		// `fresh`: the (first) result is an object allocated by this call
+		g.declareFun("alloc0", []string{"Int"}, "Bool")
+		rt := g.fn.Signature.Results().At(0).Type()
+		t := not(app("alloc0", res[0]))
+		if isSlice(rt) {
+			t = not(app("alloc0", app("s_arr", res[0])))
+		}
+		g.oblige("post", fmtf("%s/post#fresh@ret%d", g.fnLabel(), rn), t, nil, "fresh: result is newly allocated", pos)
 	}
 	// frame
 	envE := g.funcEnv(g.entry, g.entry, nil)
